@@ -721,6 +721,8 @@ class TensorExpression(ExpressionBase):
         if isinstance(expression, TensorExpression):
             # copy constructor
             sympy_expr = copy.copy(expression._sympy_expr)
+            if signature is None:
+                signature = expression.vars
             if user_funcs is None:
                 user_funcs = expression.user_funcs
             else:
